@@ -13,7 +13,7 @@ R13.5 mask cursor inside the v1 page loop advances by the rows of the page.
 """
 import ast
 
-from ..model import AnalysisError, callee, norm, src, walk_no_nested, iter_child_stmts, module_table, kwarg
+from ..model import AnalysisError, callee, norm, src, walk_no_nested, iter_child_stmts, module_table, kwarg, before
 from ..cfg import CFG
 from ..symwalk import Walker, State, Lin, Obj
 
@@ -36,6 +36,12 @@ def run(ctx):
     r133(ctx, m)
     r134(ctx, m)
     r135(ctx)
+    # row-level filtering runs on the row groups that survive pruning: the pruning rules are shared with C05
+    from . import c05
+    api = ctx.repo['api']
+    c05.r52(ctx, api, api.func('filter_val'), api.func('filter_in'), api.func('filter_not_in'), api.func('_handle_np_array'))
+    c05.r54(ctx, api)
+    c05.r55(ctx, api)
     from . import callsigs as _cs
     _cs.general_rules(ctx, 'R13', ['api.ParquetFile.to_pandas', 'api.ParquetFile.count', 'api.ParquetFile.read_row_group_file', 'api.ParquetFile.iter_row_groups', 'core.read_row_group', 'core.read_row_group_arrays', 'core.read_col', 'api.ParquetFile._column_filter', 'api.filter_row_groups'])
 
@@ -77,7 +83,7 @@ def r131_132(ctx, m):
     augs = [s for s in rstores if isinstance(s, ast.AugAssign)]
     gacc = None
     ok = len(augs) == 1 and isinstance(augs[0].op, ast.BitOr) and isinstance(augs[0].value, ast.Name) \
-        and augs[0] in outer.body and outer.body.index(augs[0]) > outer.body.index(inner)
+        and before(outer.body, inner, augs[0])
     if augs and isinstance(augs[0].value, ast.Name):
         gacc = augs[0].value.id
     ctx.ob('R13.1', 'api._column_filter:result-updated-only-by-OR-of-a-finished-group', ok,
@@ -86,7 +92,7 @@ def r131_132(ctx, m):
         return
     gstores = _stores(f, gacc)
     ginit = [s for s in gstores if isinstance(s, ast.Assign)]
-    ok = len(ginit) == 1 and ginit[0] in outer.body and outer.body.index(ginit[0]) < outer.body.index(inner) \
+    ok = len(ginit) == 1 and before(outer.body, ginit[0], inner) \
         and callee(ginit[0].value) == 'np.ones' and 'bool' in norm(ginit[0].value)
     ctx.ob('R13.1', 'api._column_filter:group-initialised-all-true-once-per-group', ok,
            '; '.join(norm(s) for s in ginit) or 'no initialisation', m.loc(ginit[0]) if ginit else m.loc(f))
@@ -100,7 +106,7 @@ def r131_132(ctx, m):
     # flat list
     flat = [s for s in f.body if isinstance(s, ast.If) and 'isinstance(filters[0][0], str)' in norm(s.test)]
     ok = len(flat) == 1 and [norm(x) for x in flat[0].body] == ['filters = [filters]'] and not flat[0].orelse \
-        and f.body.index(flat[0]) < f.body.index(outer)
+        and before(f.body, flat[0], outer)
     ctx.ob('R13.1', 'api._column_filter:flat-list-wrapped-once-before-evaluation', ok,
            'a flat list means AND (as documented and as pruned by filter_row_groups)', m.loc(flat[0]) if flat else m.loc(f))
     # no arm may test the group for being a flat condition (OR of bare conditions)
